@@ -788,6 +788,11 @@ def oracle_case(c, num, tol):
                 head = open(fn).read().splitlines()[0]
                 if head != ", ".join("dim %d" % (i + 1) for i in range(len(want[0]))):
                     return "csv header is %r" % head
+                # the evaluated points through the same writer (point_type='evalpts'): one line per sampled point, in order
+                fe = os.path.join(tmp, 'e.csv'); exchange.export_csv(o, fe, point_type='evalpts')
+                gote = exchange.import_csv(fe)
+                if not _same_pts(gote, [list(p) for p in o.evalpts], tol):
+                    return "csv (evalpts): the points read back differ from the object's evaluated points"
             else:
                 fn = os.path.join(tmp, 'a.txt'); exchange.export_txt(o, fn, two_dimensional=True)
                 got, su, sv = exchange.import_txt(fn, two_dimensional=True)
